@@ -114,6 +114,44 @@ theorem C07_synced_state_is_latest (single abort : Bool) (evs : List REv)
   simp only [hact, Bool.false_eq_true, ↓reduceIte, h.1, h.2, hs]
   rfl
 
+/-! ### The three interpretations the runtime is built with (constants read from `interpretation/mod.rs`,
+a missing `SINGLE_FRAME_STATE` meaning the trait default) -/
+
+/-- Value downlinks are single-frame: the state is the last event. -/
+theorem C07_value_interpretation_single_frame : Generated.dlValueSingleFrame = true := by decide
+
+/-- Map downlinks — interpreted (`MapInterpretation`) **and passed through (`NoInterpretation`, map-event downlinks
+of the server and self-decoding clients)** — are multi-frame: the state is made of all the events. -/
+theorem C07_map_interpretations_multi_frame :
+    Generated.dlMapSingleFrame = false ∧ Generated.dlRawSingleFrame = false := by decide
+
+/-- **A multi-frame consumer that waits for its sync receives every event** (so that at `synced` it has the
+whole state, not just the last frame): flavour `single = false`, consumer awaiting `synced`, reader alive, task
+running. Instantiated for both map flavours by `C07_map_interpretations_multi_frame`. -/
+theorem C07_multiframe_syncing_consumer_gets_every_event (abort : Bool) (evs : List REv) (x : Consumer) (b : Body)
+    (hrun : (rreach false abort evs).stopped = false) (hx : x ∈ (rreach false abort evs).aSynced)
+    (halive : (rreach false abort evs).alive x = true) :
+    (x.id, Note.event b) ∈ (rstep (rreach false abort evs) (.msg (.event b))).2 := by
+  have hsg : (rreach false abort evs).single = false := by unfold rreach; rw [single_run]; rfl
+  have ht : (rreach false abort evs).timer = false := by
+    cases hb : (rreach false abort evs).timer with
+    | false => rfl
+    | true =>
+      have := (C07_inactive_only_without_consumers false abort evs hb).2.1
+      rw [this] at hx; simp at hx
+  simp only [rstep, hrun, Bool.false_eq_true, ↓reduceIte, onMsg, dispatch, ht, hsg, List.mem_append]
+  right
+  simp only [notesTo, List.mem_flatMap, List.mem_filter, List.mem_map, List.mem_singleton]
+  exact ⟨x, ⟨hx, halive⟩, .event b, rfl, rfl⟩
+
+/-- … and at `synced` a multi-frame consumer is sent `synced` alone (`sync_only`), never a single "current" frame. -/
+theorem C07_multiframe_synced_alone (abort : Bool) (evs : List REv)
+    (hrun : (rreach false abort evs).stopped = false) (hact : (rreach false abort evs).timer = false) :
+    (onSynced (rreach false abort evs)).2 =
+      notesTo ((rreach false abort evs).aSynced.filter (rreach false abort evs).alive) [.synced] := by
+  have := C07_synced_state_is_latest false abort evs hrun hact
+  simpa using this
+
 /-- **`synced` only if asked** (the full statement; until 7d3b0a2 a consumer that attached late without SYNC was
 also sent one: F8). -/
 theorem C07_synced_only_if_asked (single abort : Bool) (evs : List REv) (ev : REv) (i : Nat)
